@@ -24,11 +24,16 @@ from automata.regex import parser as rxparser
 from automata.regex.postfix import tokens_to_postfix, validate_tokens
 
 from harness import rx_common as R
+from harness import rx_sequences as S
 from harness.common import Ctx, InfraError, Toks, call, toks
 
 LEVEL = "proof"
 RULE = ("cases = (AST of the documented syntax, concrete rendering with redundant parentheses/blanks — also blanks "
         "inside quantifier braces and leading zeros in bounds —, alphabet); "
+        "round 3, run first: 700 (thorough 6000) PROGRAMS of 1–5 calls over an alphabet no earlier call of the process has "
+        "touched (validate / a tiny compile / a call that must raise first, then from_regex with the explicit or the default "
+        "alphabet, sometimes again / over Σ∪{x} / a second expression; `()` in 70 % of the expressions), every compiled NFA judged "
+        "by both oracles and compared with the model; then "
         "corpus of past defects, then every AST of depth ≤1 over {a,b} with all bounds from {∅,0,1,2,3} in three "
         "renderings (thorough: depth ≤2 with a reduced bound set), then shaped random ASTs of depth ≤4 with bounds "
         "from {∅,0..6,007,10,12} over alphabets of 1–7 symbols incl. the characters 1 , - é 𝒳; "
@@ -39,6 +44,9 @@ ASSUMPTIONS = [
     "Python re / int() / set / dict are modelled by hand (trusted); compiled NFAs are compared up to isomorphism "
     "AND on their sets of state names (the counter is reproduced; only the assignment inside a renamed block may "
     "be permuted)",
+    "the property is about inputs, so no result may depend on earlier calls: a failing case is re-run as the first call of a "
+    "fresh interpreter; if it does not fail there its replay is the recorded calls of the run over the same alphabet "
+    "(else all recorded calls) followed by the case",
     "repetition bounds in generated cases are ≤12 (the theorems have no bound); NFAs with more than 140 states are "
     "skipped (counted, and reported as a note)",
 ]
@@ -185,9 +193,23 @@ def property_on_real(nfa, e, sigma: Sequence[str], n: Optional[int] = None, ctx:
     return brute
 
 
+# Every call into the regex code made by check_case in this process, in order, as replayable steps (see
+# harness/rx_sequences.py): if a failing case turns out to depend on the calls made before it, they are its replay.
+CALLS: list = []
+
+
+def fail_case(ctx: Ctx, what: str, replay_dict: dict):
+    n = len(ctx.prop_fails)
+    ctx.prop_fail(what, replay_dict, None)
+    if len(ctx.prop_fails) > n:
+        ctx.prop_fails[-1]["_calls"] = len(CALLS)       # the log up to and including this case's from_regex call
+
+
 def check_case(ctx: Ctx, s: str, sigma, e, origin: str, style: str = "raw"):
     """One (string, alphabet[, AST]) case: stages, compile, property."""
     sig = None if sigma is None else frozenset(sigma)
+    judged = e if (e is not None and (sig is None or R.lits_of(e) <= sig)) else None
+    CALLS.append(dict(op="compile", re=s, input_symbols=None if sig is None else sorted(sig), valid=None, ast=judged))
     real = call(lambda: NFA.from_regex(s, input_symbols=sig))
     ctx.stat(origin)
     ctx.stat("style_" + style)
@@ -207,7 +229,7 @@ def check_case(ctx: Ctx, s: str, sigma, e, origin: str, style: str = "raw"):
         ctx.stat(f"depth_{R.depth(e)}")
         if in_domain:
             if real[0] == "err":
-                ctx.prop_fail(f"valid expression {s!r} does not compile: {real[1]}", dict(case, kind="compile"), None)
+                fail_case(ctx, f"valid expression {s!r} does not compile: {real[1]}", dict(case, kind="compile"))
                 failed = True
             else:
                 bad = property_on_real(real[1], e, eff_sigma, ctx=ctx)
@@ -217,10 +239,11 @@ def check_case(ctx: Ctx, s: str, sigma, e, origin: str, style: str = "raw"):
                     nontrivial = (s, tuple(eff_sigma))
                 if bad is not None:
                     w, verdict = bad
-                    ctx.prop_fail(
+                    fail_case(
+                        ctx,
                         f"NFA.from_regex({s!r}, input_symbols={eff_sigma}) {'rejects' if verdict else 'accepts'} {w!r} "
                         f"but the expression {'denotes' if verdict else 'does not denote'} it",
-                        dict(case, kind="language", word=w, denoted=verdict), None)
+                        dict(case, kind="language", word=w, denoted=verdict))
                     failed = True
         else:
             ctx.stat("literal_outside_alphabet")
@@ -231,12 +254,22 @@ def check_case(ctx: Ctx, s: str, sigma, e, origin: str, style: str = "raw"):
         ns = len(real[1].states)
         ctx.stat("states_le5" if ns <= 5 else ("states_le20" if ns <= 20 else "states_gt20"))
     # --- correspondence: stages
-    so = stage_observe(s, sig if sig is not None else frozenset(s) - rxparser.RESERVED_CHARACTERS)
+    stage_sigma = sig if sig is not None else frozenset(s) - rxparser.RESERVED_CHARACTERS
+    CALLS.append(dict(op="stages", re=s, input_symbols=sorted(stage_sigma)))
+    so = stage_observe(s, stage_sigma)
     sm = stage_model(ctx, s)
     so_c = {k: (v if not (isinstance(v, tuple) and v[0] == "ok" and v[1] is None) else ("ok", None)) for k, v in so.items()}
     if so_c != sm and not failed:
         ctx.corr_diff("RX_POSTFIX", case, so_c, sm)
     # --- correspondence: compiled NFA
+    compare_compiled(ctx, case, s, sigma, real, failed)
+    if ctx.evaluations % 1499 == 7:
+        ctx.sample(dict(regex=s, alphabet=eff_sigma, ast=repr(e), states=(len(real[1].states) if real[0] == "ok" else real[1]),
+                        postfix=so.get("postfix")))
+
+
+def compare_compiled(ctx: Ctx, case: dict, s: str, sigma, real, failed: bool):
+    """RX_COMPILE: the real result of from_regex against the model's (exception class, or isomorphism + names)."""
     mod = model_compile(ctx, s, None if sigma is None else list(sigma))
     if real[0] == "err" or mod[0] == "err":
         same = real[0] == mod[0] and real[1] == mod[1]
@@ -250,9 +283,6 @@ def check_case(ctx: Ctx, s: str, sigma, e, origin: str, style: str = "raw"):
         ctx.corr_diff("RX_COMPILE", case,
                       real[1] if real[0] == "err" else repr(real[1])[:600],
                       mod[1] if mod[0] == "err" else json.dumps(mod[1], default=sorted)[:600])
-    if ctx.evaluations % 1499 == 7:
-        ctx.sample(dict(regex=s, alphabet=eff_sigma, ast=repr(e), states=(len(real[1].states) if real[0] == "ok" else real[1]),
-                        postfix=so.get("postfix")))
 
 
 STYLES = ("min", "full", "blank")
@@ -285,8 +315,103 @@ def final_notes(ctx: Ctx):
                  f"reader against the derivative oracle only (third oracle skipped)")
 
 
-def run(ctx: Ctx):
+def _language(nfa, e, sig):
+    return property_on_real(nfa, e, sig)
+
+
+def _stages_step(st: dict):
+    stage_observe(st["re"], frozenset(st["input_symbols"]))
+
+
+def judge_program_json(text: str):
+    """Entry point of the fresh-interpreter confirmation and of `replay`: run a recorded program of calls through the
+    real library; every from_regex step that carries an AST is judged by the two language oracles."""
+    try:
+        return S.judge_steps(json.loads(text), language=_language, extra_ops={"stages": _stages_step})
+    except S.Skip:
+        return []
+
+
+def fresh_alphabet_sequences(ctx: Ctx):
+    """Round 3: short programs of calls — validate / a small compile / a call that raises, then from_regex (explicit
+    or default alphabet), possibly again / over a larger alphabet / a second expression — each over an alphabet NO
+    earlier call of this process has touched, `()` in most expressions (harness/rx_sequences.py).  Must run before
+    every other family.  Every compiled NFA is judged by the brute-force and the derivative oracle of its own AST;
+    afterwards the NFA of each compile step is compared with the model's (RX_COMPILE: isomorphism and state names —
+    the names come from a counter that every call starts at 0)."""
     rng = ctx.rng
+    used: set = set()
+    failing: list = []
+    for _ in range(ctx.budget(700, 6000)):
+        prog = S.gen_program(rng, used, "compile", _rewrite)
+        if prog is None:
+            ctx.stat("seq_no_fresh_alphabet")
+            continue
+        steps = prog["steps"]
+        used.update(S.touched_alphabets(steps))
+        CALLS.extend(S.clean(steps))
+        bad = S.judge_steps(steps, language=_language)
+        ctx.stat("sequence")
+        ctx.stat(f"seq_steps_{len(steps)}")
+        ctx.stat(f"seq_alphabet_size_{min(len(prog['sigma']), 6)}")
+        for tg in prog["tags"]:
+            ctx.stat("seq_" + tg)
+        ctx.case(json.dumps(S.clean(steps), sort_keys=True) if len(steps) >= 2 else None)
+        if bad:
+            ctx.stat("seq_failing_program")
+            failing.append((prog, bad, len(CALLS)))
+            continue
+        for st in steps:
+            if st["op"] == "compile" and "_nfa" in st:
+                compare_compiled(ctx, dict(regex=st["re"], input_symbols=st["input_symbols"], origin="sequence"),
+                                 st["re"], st["input_symbols"], ("ok", st["_nfa"]), False)
+        if ctx.evaluations % 97 == 5:
+            ctx.sample(dict(sequence=S.clean(steps)))
+    S.report_failing(ctx, failing)
+
+
+def _rewrite(rng, e):
+    """A second expression for the programs (C10 judges every expression on its own; any AST will do)."""
+    r = rng.random()
+    if r < 0.3:
+        return ("alt", e, ("eps",))
+    if r < 0.5:
+        return ("opt", e)
+    if r < 0.7:
+        return ("cat", ("eps",), e)
+    return ("star", e)
+
+
+def settle_replays(ctx: Ctx):
+    """run.py prints the failure whose replay is shortest.  A single-case replay ({regex, alphabet}) — or a program of
+    calls — only stands on its own if it also fails as the FIRST thing a fresh interpreter does; otherwise the failure
+    depends on calls made before it, and its replay becomes recorded calls of the run (the last ones over the same
+    alphabet / expression if that suffices, else all of those, else all) followed by it — harness/fresh.py."""
+    from harness import fresh
+
+    def as_step(rp):
+        # a failing case is a rendering of its AST over an alphabet containing its literals: it must compile
+        return dict(op="compile", re=rp["regex"], input_symbols=rp.get("input_symbols"),
+                    valid=True if rp.get("ast") is not None else None, ast=rp.get("ast"))
+
+    def make_replay(steps, rp, n_history):
+        return dict(kind="sequence", steps=steps, failing_step=n_history + rp.get("failing_step", 0),
+                    detail=rp.get("detail") or {k: rp[k] for k in ("word", "denoted") if k in rp})
+
+    fresh.settle_replays(ctx, "C10", CALLS, as_step, S.keys_of, make_replay)
+
+
+def run(ctx: Ctx):
+    try:
+        run_families(ctx)
+    finally:
+        settle_replays(ctx)
+
+
+def run_families(ctx: Ctx):
+    rng = ctx.rng
+    # 0. call sequences over fresh alphabets — FIRST, while no alphabet has been used in this process
+    fresh_alphabet_sequences(ctx)
     # 1. corpus
     for e, sigma in CORPUS:
         for st in STYLES:
@@ -368,6 +493,7 @@ def search(ctx: Ctx):
             w, verdict = bad
             ctx.prop_fail(f"NFA.from_regex({s!r}) {'rejects' if verdict else 'accepts'} {w!r} against the denotation",
                           dict(regex=s, input_symbols=sorted(alpha), ast=e, kind="language", word=w, denoted=verdict), None)
+    settle_replays(ctx)
 
 
 def to_ast(x):
@@ -377,8 +503,12 @@ def to_ast(x):
 def replay(ctx: Ctx, path: str) -> int:
     data = json.load(open(path))
     rp = data.get("replay", data)
-    e = to_ast(rp.get("ast")) if rp.get("ast") is not None else None
-    check_case(ctx, rp["regex"], rp.get("input_symbols"), e, "replay")
+    if rp.get("kind") == "sequence":
+        for i, what, _detail in judge_program_json(json.dumps(rp["steps"])):
+            ctx.prop_fail(f"after {S.describe(rp['steps'], i)}: {what}", rp, None)
+    else:
+        e = to_ast(rp.get("ast")) if rp.get("ast") is not None else None
+        check_case(ctx, rp["regex"], rp.get("input_symbols"), e, "replay")
     if ctx.prop_fails:
         print(f"VIOLATION property=C10 replay={path}")
         print("  " + ctx.prop_fails[0]["what"])
